@@ -2,3 +2,7 @@ import GcpVerif.Model.ME
 import GcpVerif.Spec.ME
 import GcpVerif.Driver.Common
 import GcpVerif.Driver.ME
+import GcpVerif.Proofs.MEBasic
+import GcpVerif.Proofs.MEInv
+import GcpVerif.Proofs.MEStep
+import GcpVerif.Proofs.ME
